@@ -10,6 +10,9 @@ checks that with `atoms_fields'.
 from .model import resolve_addr, const_int
 
 
+NAMED = [False]   # print locals by their source names (for frozen tables) instead of SSA ids
+
+
 class Lin(object):
     """c + sum(coeff * atom)"""
     __slots__ = ("c", "t")
@@ -68,9 +71,10 @@ def addr_str(f, op, depth=0, ld=99):
     if r[0] == "g":
         s = "@" + r[1]
     elif r[0] == "a":
-        s = "a%d" % r[1]
+        s = (f.args[r[1]]["name"] if NAMED[0] and f.args[r[1]].get("name") else "a%d" % r[1])
     elif r[0] == "alloca":
-        s = "alloca#%d" % r[1]
+        a_ = f.insts.get(r[1])
+        s = ("&" + a_.d["var"]) if (a_ is not None and a_.d.get("var") and NAMED[0]) else "alloca#%d" % r[1]
     elif r[0] == "null":
         s = "null"
     else:
@@ -94,9 +98,13 @@ def lin(f, op, depth=0, ld=99):
     if k == "null":
         return Lin(0)
     if k == "a":
-        return Lin(0, {"a%d" % op["v"]: 1})
+        return Lin(0, {(f.args[op["v"]]["name"] if NAMED[0] and f.args[op["v"]].get("name") else "a%d" % op["v"]): 1})
     if k == "g":
         return Lin(0, {"@" + op["v"]: 1})
+    if k == "ce" and NAMED[0]:
+        st_ = f.model.string_of(op)
+        if st_ is not None:
+            return Lin(0, {'"%s"' % st_: 1})
     if k == "i":
         i = f.insts.get(op["v"])
         if i is None:
@@ -139,6 +147,12 @@ def lin(f, op, depth=0, ld=99):
                 else:
                     return Lin(0, {"gep#%d" % i.id: 1})
             return base
+        if NAMED[0] and o == "call" and i.callee:
+            cs = "%s(%s)" % (i.callee, ",".join(repr(lin(f, a, depth + 1, ld)) for a in i.args))
+            if ("#" not in cs and len(cs) < 60) or not i.d.get("var"):
+                return Lin(0, {cs: 1})
+        if NAMED[0] and i.d.get("var"):
+            return Lin(0, {"%s" % i.d["var"]: 1})
         return Lin(0, {"%s#%d" % (o, i.id): 1})
     return Lin(0, {"?": 1})
 
